@@ -123,43 +123,58 @@ fn serialize_world<M: Marker + Component>(w: &World, recursive: bool, fmt: Fmt) 
 where
     M::Storage: Default,
 {
-    let ents = w.entities();
-    let pa = w.read_storage::<PA>();
-    let pb = w.read_storage::<PB>();
-    let l1 = w.read_storage::<Link>();
-    let l2 = w.read_storage::<Link2>();
-    let comps = (&pa, &pb, &l1, &l2);
-    match (fmt, recursive) {
-        (Fmt::Json, false) => {
-            let markers = w.read_storage::<M>();
+    serialize_world_as::<M>(w, recursive, fmt, 0)
+}
+
+/// `flavour` selects which `GenericReadStorage` implementations carry the components:
+/// 0 `&ReadStorage`, 1 `ReadStorage`, 2 `&WriteStorage`, 3 `WriteStorage`.
+fn serialize_world_as<M: Marker + Component>(w: &World, recursive: bool, fmt: Fmt, flavour: u8) -> Result<String, String>
+where
+    M::Storage: Default,
+{
+    macro_rules! go {
+        ($comps:expr) => {{
+            let ents = w.entities();
+            let comps = $comps;
             let mut buf = Vec::new();
-            let mut ser = serde_json::Serializer::new(&mut buf);
-            SerializeComponents::<Infallible, M>::serialize(&comps, &ents, &markers, &mut ser).map_err(|e| e.to_string())?;
+            match (fmt, recursive) {
+                (Fmt::Json, false) => {
+                    let markers = w.read_storage::<M>();
+                    let mut ser = serde_json::Serializer::new(&mut buf);
+                    SerializeComponents::<Infallible, M>::serialize(&comps, &ents, &markers, &mut ser).map_err(|e| e.to_string())?;
+                }
+                (Fmt::Json, true) => {
+                    let mut markers = w.write_storage::<M>();
+                    let mut alloc = w.write_resource::<M::Allocator>();
+                    let mut ser = serde_json::Serializer::new(&mut buf);
+                    SerializeComponents::<Infallible, M>::serialize_recursive(&comps, &ents, &mut markers, &mut alloc, &mut ser).map_err(|e| e.to_string())?;
+                }
+                (Fmt::Ron, false) => {
+                    let markers = w.read_storage::<M>();
+                    let mut ser = ron::ser::Serializer::new(&mut buf, None).map_err(|e| e.to_string())?;
+                    SerializeComponents::<Infallible, M>::serialize(&comps, &ents, &markers, &mut ser).map_err(|e| e.to_string())?;
+                }
+                (Fmt::Ron, true) => {
+                    let mut markers = w.write_storage::<M>();
+                    let mut alloc = w.write_resource::<M::Allocator>();
+                    let mut ser = ron::ser::Serializer::new(&mut buf, None).map_err(|e| e.to_string())?;
+                    SerializeComponents::<Infallible, M>::serialize_recursive(&comps, &ents, &mut markers, &mut alloc, &mut ser).map_err(|e| e.to_string())?;
+                }
+            }
             Ok(String::from_utf8(buf).unwrap())
+        }};
+    }
+    match flavour % 4 {
+        0 => {
+            let (pa, pb, l1, l2) = (w.read_storage::<PA>(), w.read_storage::<PB>(), w.read_storage::<Link>(), w.read_storage::<Link2>());
+            go!((&pa, &pb, &l1, &l2))
         }
-        (Fmt::Json, true) => {
-            let mut markers = w.write_storage::<M>();
-            let mut alloc = w.write_resource::<M::Allocator>();
-            let mut buf = Vec::new();
-            let mut ser = serde_json::Serializer::new(&mut buf);
-            SerializeComponents::<Infallible, M>::serialize_recursive(&comps, &ents, &mut markers, &mut alloc, &mut ser).map_err(|e| e.to_string())?;
-            Ok(String::from_utf8(buf).unwrap())
+        1 => go!((w.read_storage::<PA>(), w.read_storage::<PB>(), w.read_storage::<Link>(), w.read_storage::<Link2>())),
+        2 => {
+            let (pa, pb, l1, l2) = (w.write_storage::<PA>(), w.write_storage::<PB>(), w.write_storage::<Link>(), w.write_storage::<Link2>());
+            go!((&pa, &pb, &l1, &l2))
         }
-        (Fmt::Ron, false) => {
-            let markers = w.read_storage::<M>();
-            let mut buf = Vec::new();
-            let mut ser = ron::ser::Serializer::new(&mut buf, None).map_err(|e| e.to_string())?;
-            SerializeComponents::<Infallible, M>::serialize(&comps, &ents, &markers, &mut ser).map_err(|e| e.to_string())?;
-            Ok(String::from_utf8(buf).unwrap())
-        }
-        (Fmt::Ron, true) => {
-            let mut markers = w.write_storage::<M>();
-            let mut alloc = w.write_resource::<M::Allocator>();
-            let mut buf = Vec::new();
-            let mut ser = ron::ser::Serializer::new(&mut buf, None).map_err(|e| e.to_string())?;
-            SerializeComponents::<Infallible, M>::serialize_recursive(&comps, &ents, &mut markers, &mut alloc, &mut ser).map_err(|e| e.to_string())?;
-            Ok(String::from_utf8(buf).unwrap())
-        }
+        _ => go!((w.write_storage::<PA>(), w.write_storage::<PB>(), w.write_storage::<Link>(), w.write_storage::<Link2>())),
     }
 }
 
@@ -167,23 +182,40 @@ fn deserialize_world<M: Marker + Component>(w: &World, text: &str, fmt: Fmt) -> 
 where
     M::Storage: Default,
 {
+    deserialize_world_as::<M>(w, text, fmt, 0)
+}
+
+/// `flavour` selects the `GenericWriteStorage` implementation: 0 `WriteStorage`, 1 `&mut WriteStorage`.
+fn deserialize_world_as<M: Marker + Component>(w: &World, text: &str, fmt: Fmt, flavour: u8) -> Result<(), String>
+where
+    M::Storage: Default,
+{
     let ents = w.entities();
-    let pa = w.write_storage::<PA>();
-    let pb = w.write_storage::<PB>();
-    let l1 = w.write_storage::<Link>();
-    let l2 = w.write_storage::<Link2>();
+    let mut pa = w.write_storage::<PA>();
+    let mut pb = w.write_storage::<PB>();
+    let mut l1 = w.write_storage::<Link>();
+    let mut l2 = w.write_storage::<Link2>();
     let mut markers = w.write_storage::<M>();
     let mut alloc = w.write_resource::<M::Allocator>();
-    let mut comps = (pa, pb, l1, l2);
-    match fmt {
-        Fmt::Json => {
-            let mut de = serde_json::Deserializer::from_str(text);
-            DeserializeComponents::<Infallible, M>::deserialize(&mut comps, &ents, &mut markers, &mut alloc, &mut de).map_err(|e| e.to_string())
-        }
-        Fmt::Ron => {
-            let mut de = ron::de::Deserializer::from_str(text).map_err(|e| e.to_string())?;
-            DeserializeComponents::<Infallible, M>::deserialize(&mut comps, &ents, &mut markers, &mut alloc, &mut de).map_err(|e| e.to_string())
-        }
+    macro_rules! go {
+        ($comps:expr) => {{
+            let mut comps = $comps;
+            match fmt {
+                Fmt::Json => {
+                    let mut de = serde_json::Deserializer::from_str(text);
+                    DeserializeComponents::<Infallible, M>::deserialize(&mut comps, &ents, &mut markers, &mut alloc, &mut de).map_err(|e| e.to_string())
+                }
+                Fmt::Ron => {
+                    let mut de = ron::de::Deserializer::from_str(text).map_err(|e| e.to_string())?;
+                    DeserializeComponents::<Infallible, M>::deserialize(&mut comps, &ents, &mut markers, &mut alloc, &mut de).map_err(|e| e.to_string())
+                }
+            }
+        }};
+    }
+    if flavour % 2 == 0 {
+        go!((pa, pb, l1, l2))
+    } else {
+        go!((&mut pa, &mut pb, &mut l1, &mut l2))
     }
 }
 
@@ -336,7 +368,8 @@ where
             }
         }
     }
-    let text = serialize_world::<M>(&src, spec.recursive, spec.fmt)?;
+    let flavour = (spec.marked ^ spec.pa ^ (spec.link.iter().sum::<usize>() as u32)) as u8;
+    let text = serialize_world_as::<M>(&src, spec.recursive, spec.fmt, flavour)?;
     // after serialising, every transferred entity carries a marker in the source
     let src_desc = describe::<M>(&src)?;
     {
@@ -392,13 +425,13 @@ where
     let _pad2 = dst.entities().create();
     let mut dst = dst;
     if spec.emptied {
-        deserialize_world::<M>(&dst, &text, spec.fmt).map_err(|e| format!("deserialize-error: {}", e))?;
+        deserialize_world_as::<M>(&dst, &text, spec.fmt, flavour >> 2).map_err(|e| format!("deserialize-error: {}", e))?;
         dst.maintain();
         dst.delete_all();
         dst.maintain();
         let _pad3 = dst.entities().create();
     }
-    deserialize_world::<M>(&dst, &text, spec.fmt).map_err(|e| format!("deserialize-error: {}", e))?;
+    deserialize_world_as::<M>(&dst, &text, spec.fmt, (flavour >> 2) ^ 1).map_err(|e| format!("deserialize-error: {}", e))?;
     dst.maintain();
     let dst_desc = describe::<M>(&dst).map_err(|e| format!("loaded-world: {}", e))?;
     if dst_desc != src_desc {
@@ -728,8 +761,14 @@ impl Run {
                 }
                 self.next_pa += 1;
                 let v = self.next_pa;
-                self.w.write_storage::<PA>().insert(self.h[*s as usize], PA(v)).unwrap();
-                self.pa[*s as usize] = Some(v);
+                let r = self.w.write_storage::<PA>().insert(self.h[*s as usize], PA(v));
+                self.tr = fold64(self.tr, r.is_ok() as u64);
+                if r.is_err() {
+                    // only possible where the model is not authoritative (determinism alphabet)
+                    fail!(self, "components: inserting a component for live slot {} was refused", s);
+                } else {
+                    self.pa[*s as usize] = Some(v);
+                }
             }
             Op::DeleteNow(s) => {
                 if !ok_slot(s) {
@@ -773,7 +812,7 @@ impl Run {
                 alloc.maintain(&ents, &stg);
             }
             Op::Save => {
-                let text = match serialize_world::<SM>(&self.w, false, Fmt::Json) {
+                let text = match serialize_world_as::<SM>(&self.w, false, Fmt::Json, self.h.len() as u8) {
                     Ok(t) => t,
                     Err(e) => {
                         fail!(self, "serialize-error: {}", e);
@@ -813,7 +852,7 @@ impl Run {
                     return false;
                 }
                 let text = recs_to_json(&recs);
-                if let Err(e) = deserialize_world::<SM>(&self.w, &text, Fmt::Json) {
+                if let Err(e) = deserialize_world_as::<SM>(&self.w, &text, Fmt::Json, *k) {
                     fail!(self, "deserialize-error: {}", e);
                     return true;
                 }
